@@ -20,9 +20,64 @@ use puppet::{install, make_code, take_trace, PMsg, XModule, XMsg, XQuery, XQuery
 use std::collections::{BTreeMap, BTreeSet};
 use types::*;
 
-/// the App under test uses the crate's own Bech32 Api; the reference interpreter and the harness
-/// compute addresses with cosmwasm-std's `MockApi` (same codec, independent implementation)
-pub type TApp = App<BankKeeper, cw_multi_test::MockApiBech32, MockStorage, XModule, WasmKeeper<XMsg, XQuery>, StakeKeeper, DistributionKeeper, IbcFailingModule, GovFailingModule, StargateFailing>;
+/// the Api of the App under test: either of the two Bech32 implementations users meet
+pub enum FlexApi {
+    Std(MockApi),
+    Crate(cw_multi_test::MockApiBech32),
+}
+
+impl Api for FlexApi {
+    fn addr_validate(&self, human: &str) -> cosmwasm_std::StdResult<Addr> {
+        match self {
+            FlexApi::Std(a) => a.addr_validate(human),
+            FlexApi::Crate(a) => a.addr_validate(human),
+        }
+    }
+    fn addr_canonicalize(&self, human: &str) -> cosmwasm_std::StdResult<cosmwasm_std::CanonicalAddr> {
+        match self {
+            FlexApi::Std(a) => a.addr_canonicalize(human),
+            FlexApi::Crate(a) => a.addr_canonicalize(human),
+        }
+    }
+    fn addr_humanize(&self, canonical: &cosmwasm_std::CanonicalAddr) -> cosmwasm_std::StdResult<Addr> {
+        match self {
+            FlexApi::Std(a) => a.addr_humanize(canonical),
+            FlexApi::Crate(a) => a.addr_humanize(canonical),
+        }
+    }
+    fn secp256k1_verify(&self, h: &[u8], s: &[u8], k: &[u8]) -> Result<bool, cosmwasm_std::VerificationError> {
+        match self {
+            FlexApi::Std(a) => a.secp256k1_verify(h, s, k),
+            FlexApi::Crate(a) => a.secp256k1_verify(h, s, k),
+        }
+    }
+    fn secp256k1_recover_pubkey(&self, h: &[u8], s: &[u8], r: u8) -> Result<Vec<u8>, cosmwasm_std::RecoverPubkeyError> {
+        match self {
+            FlexApi::Std(a) => a.secp256k1_recover_pubkey(h, s, r),
+            FlexApi::Crate(a) => a.secp256k1_recover_pubkey(h, s, r),
+        }
+    }
+    fn ed25519_verify(&self, m: &[u8], s: &[u8], k: &[u8]) -> Result<bool, cosmwasm_std::VerificationError> {
+        match self {
+            FlexApi::Std(a) => a.ed25519_verify(m, s, k),
+            FlexApi::Crate(a) => a.ed25519_verify(m, s, k),
+        }
+    }
+    fn ed25519_batch_verify(&self, m: &[&[u8]], s: &[&[u8]], k: &[&[u8]]) -> Result<bool, cosmwasm_std::VerificationError> {
+        match self {
+            FlexApi::Std(a) => a.ed25519_batch_verify(m, s, k),
+            FlexApi::Crate(a) => a.ed25519_batch_verify(m, s, k),
+        }
+    }
+    fn debug(&self, message: &str) {
+        match self {
+            FlexApi::Std(a) => a.debug(message),
+            FlexApi::Crate(a) => a.debug(message),
+        }
+    }
+}
+
+pub type TApp = App<BankKeeper, FlexApi, MockStorage, XModule, WasmKeeper<XMsg, XQuery>, StakeKeeper, DistributionKeeper, IbcFailingModule, GovFailingModule, StargateFailing>;
 
 pub struct World {
     pub prefix: &'static str,
@@ -73,11 +128,11 @@ impl World {
         struct PoolGen(u64);
         impl cw_multi_test::AddressGenerator for PoolGen {
             fn contract_address(&self, api: &dyn cosmwasm_std::Api, _storage: &mut dyn cosmwasm_std::Storage, _code_id: u64, instance_id: u64) -> cw_multi_test::error::AnyResult<Addr> {
-                Ok(api.addr_humanize(&crate::util::classic_canonical(1, instance_id % self.0))?)
+                Ok(Addr::unchecked(model::pool_address(api, self.0 as u8, instance_id)))
             }
         }
         let keeper = if setup.addr_pool > 0 { WasmKeeper::<XMsg, XQuery>::new().with_address_generator(PoolGen(setup.addr_pool as u64)) } else { WasmKeeper::<XMsg, XQuery>::new() };
-        let app: TApp = BasicAppBuilder::<XMsg, XQuery>::new_custom().with_api(cw_multi_test::MockApiBech32::new(prefix)).with_wasm(keeper).with_custom(XModule).build(|router, api, storage| {
+        let app: TApp = BasicAppBuilder::<XMsg, XQuery>::new_custom().with_api(if setup.api == 1 { FlexApi::Crate(cw_multi_test::MockApiBech32::new(prefix)) } else { FlexApi::Std(MockApi::default().with_prefix(prefix)) }).with_wasm(keeper).with_custom(XModule).build(|router, api, storage| {
             for (a, c) in inits {
                 router.bank.init_balance(storage, &a, c).unwrap();
             }
@@ -91,7 +146,7 @@ impl World {
         });
         let b = app.block_info();
         st.block = (b.height, b.time.nanos(), b.chain_id);
-        let mut w = World { prefix, app, fx: Fixed { codes: BTreeMap::new(), users, fresh, nowhere, validators, unbonding_time: setup.unbonding_time, addr_pool: setup.addr_pool }, st, ever: BTreeMap::new(), next_tag: 0 };
+        let mut w = World { prefix, app, fx: Fixed { codes: BTreeMap::new(), users, fresh, nowhere, validators, unbonding_time: setup.unbonding_time, addr_pool: setup.addr_pool, api: setup.api }, st, ever: BTreeMap::new(), next_tag: 0 };
         for c in &setup.codes {
             let _ = w.store(c);
         }
@@ -359,6 +414,7 @@ impl World {
             _ => unreachable!("not a transactional call"),
         };
         install(it.nodes_rt.clone(), it.qnodes_rt.clone(), it.reply_lookup.clone());
+        puppet::install_reply_queue(it.reply_queue.clone());
         // ---- real run
         let app = &mut self.app;
         let mut helper_note: Option<Disc> = None;
@@ -880,6 +936,11 @@ fn views_agree(w: &World) -> Vec<Disc> {
             break;
         }
         let empty = BTreeSet::new();
+        // a raw query validates the address; contracts at strings that are not addresses (adjacent
+        // pools) are covered by the dump and the accessor above
+        if model::api().addr_validate(addr).is_err() {
+            continue;
+        }
         for k in w.ever.get(addr).unwrap_or(&empty) {
             let got = w.app.wrap().query_wasm_raw(addr.clone(), k.clone()).ok().flatten();
             let want_v = ci.kv.get(k).cloned();
@@ -1062,7 +1123,7 @@ fn c13_grid() -> Vec<History> {
         Migrate,
     }
     let mut out = vec![];
-    let setup = Setup { balances: vec![[100, 100, 100]; N_USERS], codes: vec![CodeSpec { family: Family::Puppet, how: StoreHow::Plain, own_checksum: None }, CodeSpec { family: Family::WrappedFull, how: StoreHow::Plain, own_checksum: None }], validators: 0, unbonding_time: 60, addr_pool: 0 };
+    let setup = Setup { balances: vec![[100, 100, 100]; N_USERS], codes: vec![CodeSpec { family: Family::Puppet, how: StoreHow::Plain, own_checksum: None }, CodeSpec { family: Family::WrappedFull, how: StoreHow::Plain, own_checksum: None }], validators: 0, unbonding_time: 60, addr_pool: 0, api: 0 };
     let init = |code: u8, admin: Option<ARef>| Tx { kind: TxKind::Exec { sender: ARef::User(0), msg: Msg::Inst { code: KRef(code), node: 0, funds: vec![], label: "c".into(), admin, salt: None }, via: Via::Execute }, nodes: vec![Node { writes: vec![Write::Set(crate::util::Hx(b"init".to_vec()), crate::util::Hx(vec![1]))], ..Default::default() }], qnodes: vec![] };
     let strings: Vec<(Pos, String)> = KEYS.iter().flat_map(|k| [(Pos::AttrKey, k.to_string()), (Pos::EventAttrKey, k.to_string())]).chain(TYPES.iter().map(|t| (Pos::EventType, t.to_string()))).collect();
     for (pos, s) in &strings {
